@@ -95,7 +95,7 @@ Definition suite_C02 (inp obs : list tok) : verdict :=
                           Some {| o2_k := k; o2_x := x; o2_y := y; o2_z := z; o2_l1 := l1; o2_l2 := l2 |}
                       | _ => None end in
             match ro with
-            | Some o => {| v_model := enc02 op' (run_C02 cs); v_ok := ok_C02 cs o; v_wellformed := true |}
+            | Some o => {| v_model := enc02 op' (run_C02 cs); v_ok := (o2_k o <? 10) && ok_C02 cs o;   (* kind 10: trait route and method-call route disagree *) v_wellformed := true |}
             | None => malformed end
           else malformed
       | None => malformed end
